@@ -20,6 +20,7 @@ import re
 import uuid as uuidlib
 from datetime import datetime, timedelta
 
+from ..impl import c11api as api
 from ..impl import c11pv as pv
 from ..translate import c11 as tr
 
@@ -521,6 +522,12 @@ def gen_cases(rng, tier):
         cases.append(g_e2e_case(rng, ml, want))
     for i in range(12 if tier == "quick" else 160):
         cases.append(g_rails_case(rng, "regex" if rng.random() < 0.1 else None))
+    # api cases are the most expensive single cases (~100 generate_async calls each): spread them over the list so that
+    # the runner's chunked pool does not hand all of them to one worker
+    apis = [api.g_api_case(rng, tier) for _ in range(8 if tier == "quick" else 90)]
+    step = max(1, len(cases) // (len(apis) + 1))
+    for i, c in enumerate(apis):
+        cases.insert(min(len(cases), (i + 1) * step + i), c)
     return cases
 
 
@@ -602,6 +609,8 @@ def run_impl(case):
             signal.signal(signal.SIGVTALRM, old)
     if k == "rails":
         return run_rails(case)
+    if k == "api":
+        return api.run_api(case, _Clock, _FakeRandomBits)
     raise ValueError(k)
 
 
@@ -812,10 +821,20 @@ def _system_action(state, start_event):
     return asyncio.run(LLMGenerationActionsV2dotx.check_if_flow_exists(None, state=state, flow_id=start_event.get("flow_id")))
 
 
+_PARSED = {}
+
+
 class _Run:
     def __init__(self, src):
         sm, flows = _M["sm"], _M["flows"]
-        cfg = _M["mkcfg"](_M["parse"](filename="", content=src, include_source_mapping=False, version="2.x")["flows"])
+        # every cut point re-runs the same program several times: parse it once, hand every run its own copy of the configs
+        import pickle
+
+        if _PARSED.get("src") != src:
+            cfg0 = _M["mkcfg"](_M["parse"](filename="", content=src, include_source_mapping=False, version="2.x")["flows"])
+            _PARSED.clear()
+            _PARSED.update(src=src, blob=pickle.dumps(cfg0))
+        cfg = pickle.loads(_PARSED["blob"])
         self.state = flows.State(flow_states=[], flow_configs=cfg)
         sm.initialize_state(self.state)
         self.started = []  # (action_uid, name) of StartXAction events seen so far
@@ -1000,6 +1019,91 @@ def _graph_diff(a, b):
     return None
 
 
+
+# ----------------------------------------------------------------------------- the relation `Aged` of the T3 lemmas, on real states
+
+def _shallow(v, d=0):
+    """comparable picture of a context value: containers by value, runtime objects by class and uid"""
+    if v is None or isinstance(v, (bool, int, float, str)):
+        return v
+    if d > 6:
+        return "<deep>"
+    if isinstance(v, dict):
+        return {"d": [[_shallow(k, d + 1), _shallow(x, d + 1)] for k, x in v.items()]}
+    if isinstance(v, (list, tuple)) or type(v).__name__ == "deque":
+        return {type(v).__name__: [_shallow(x, d + 1) for x in v]}
+    if isinstance(v, (set, frozenset)):
+        return {"set": sorted((json.dumps(_shallow(x, d + 1), sort_keys=True, default=str) for x in v))}
+    if isinstance(v, re.Pattern):
+        return {"re": [v.pattern, v.flags]}
+    if hasattr(v, "uid"):
+        return f"<{type(v).__name__} {getattr(v, 'uid', None)}>"
+    if hasattr(v, "name") and hasattr(v, "arguments"):
+        return {"ev": [type(v).__name__, v.name, _shallow(v.arguments, d + 1)]}
+    return f"<{type(v).__name__}>"
+
+
+def _aged_summary(state):
+    """what `Bisim.Aged` (lean/NemoVerif/Lemmas/CleanUpBisimFns.lean) speaks about, read off a real `State`"""
+    now = _Clock.now()
+    fs = {}
+    for uid, f in state.flow_states.items():
+        fs[uid] = {
+            "rec": [f.flow_id, f.loop_id, f.hierarchy_position, _shallow(f.head_fork_uids), list(f.action_uids), _shallow(f.context), f.priority,
+                    _shallow(f.arguments), f.parent_uid, f.parent_head_uid, f.status.name, f.activated, f.new_instance_started,
+                    [[h.uid, h.position, h.status.name, len(h.matching_scores), list(h.scope_uids), list(h.child_head_uids), list(h.catch_pattern_failure_label)] for h in f.heads.values()],
+                    [[k, list(v[1])] for k, v in f.scopes.items()]],
+            "children": list(f.child_flow_uids), "scope_flows": [list(v[0]) for v in f.scopes.values()],
+            "age_us": int((now - f.status_updated) / timedelta(microseconds=1)), "status": f.status.name, "activated": f.activated,
+        }
+    return {
+        "order": list(state.flow_states.keys()), "fs": fs,
+        "idx": {k: [x.uid for x in v] for k, v in state.flow_id_states.items()},
+        "actions": {k: [a.name, a.status.name, a.flow_uid, a.flow_scope_count, _shallow(a.context), _shallow(a.start_event_arguments)] for k, a in state.actions.items()},
+        "maps": [[[k, [list(x) for x in v]] for k, v in state.event_matching_heads.items()], [[list(k) if isinstance(k, tuple) else k, v] for k, v in state.event_matching_heads_reverse_map.items()]],
+        "rest": [len(state.internal_events), state.main_flow_state.uid if state.main_flow_state else None, _shallow(state.context)],
+    }
+
+
+def _aged_violation(live, aged):
+    """None, or why `Aged rm live aged` does not hold (rm = the instances missing in the aged state)"""
+    rm = [u for u in live["order"] if u not in aged["fs"]]
+    if [u for u in aged["order"] if u not in live["fs"]]:
+        return "the aged state has an instance the live one does not have"
+    if aged["order"] != [u for u in live["order"] if u not in rm]:
+        return "flow_states order differs"
+    for u in rm:
+        if live["fs"][u]["status"] not in ("FINISHED", "STOPPED"):
+            return f"{u} is missing in the aged state but is not done in the live one ({live['fs'][u]['status']})"
+    if aged["maps"] != live["maps"]:
+        return "the dispatch maps (event_matching_heads / reverse map) differ"
+    for u in aged["order"]:
+        a, l = aged["fs"][u], live["fs"][u]
+        if a["rec"] != l["rec"]:
+            k = next(i for i in range(len(a["rec"])) if a["rec"][i] != l["rec"][i])
+            return f"record of the kept instance {u} differs in field #{k}: live {json.dumps(l['rec'][k], default=str)[:120]} aged {json.dumps(a['rec'][k], default=str)[:120]}"
+        # both sides without the discarded uids: the clean-up drops a discarded uid from the child list of its `parent_uid` only,
+        # a flow activated by a second parent is listed by that parent too (XRel in CleanUpBisimFns.lean filters both sides)
+        if [c for c in a["children"] if c not in rm] != [c for c in l["children"] if c not in rm]:
+            return f"child_flow_uids of {u}: aged {a['children']} and live {l['children']} differ in more than the discarded {rm}"
+        if [[c for c in sc if c not in rm] for sc in a["scope_flows"]] != [[c for c in sc if c not in rm] for sc in l["scope_flows"]]:
+            return f"scope flow lists of {u} differ in more than the discarded instances {rm}"
+        if a["age_us"] < l["age_us"]:
+            return f"{u} is younger in the aged state"
+    if list(aged["idx"].keys()) != list(live["idx"].keys()) or any(aged["idx"][k] != [x for x in live["idx"][k] if x not in rm] for k in live["idx"]):
+        return "flow_id_states is not the live one without the discarded instances"
+    for k, v in aged["actions"].items():
+        if live["actions"].get(k) != v:
+            return f"action {k} of the aged state is not the live one"
+    for u in aged["order"]:
+        for au in live["fs"][u]["rec"][4]:
+            if (au in live["actions"]) != (au in aged["actions"]):
+                return f"action {au} referenced by the kept instance {u} is missing on one side"
+    if aged["rest"] != live["rest"]:
+        return "queue length / main flow / global context differ"
+    return None
+
+
 def run_e2e(case):
     ser = _M["ser"]
     _Clock.offset_us = 0
@@ -1061,31 +1165,62 @@ def run_e2e(case):
         _Clock.offset_us = 0
         _FakeRandomBits.counter = 0
         rerun = _Run(case["src"])
+        live_summ = []
         for i, ev in enumerate(hist):
             if snaps[i]["json"] is not None and (i == len(hist) - 1 or any(p["cut"] == i for p in obs["problems"])):
                 facts = _state_facts(rerun.state)
                 obs["facts"].update({k: v for k, v in facts.items() if v})
+                c0 = _FakeRandomBits.counter  # decoding constructs objects whose default uid draws from the counter
                 try:
                     d = _graph_diff(rerun.state, ser.json_to_state(ser.state_to_json(rerun.state)))
                 except BaseException as e:  # noqa
                     d = None
+                _FakeRandomBits.counter = c0
                 if d:
                     obs["problems"].append({"cut": i, "what": "structure", "msg": d[:200]})
             _Clock.offset_us += 1000
             rerun.feed(ev)
+            try:
+                live_summ.append(_aged_summary(rerun.state))
+            except Exception:  # noqa
+                live_summ.append(None)
     # ---- ageing at every cut: same program, same history, the clock jumps past the age before event i
     for i in range(len(hist)):
         _Clock.offset_us = 0
         _FakeRandomBits.counter = 0
         aged = _Run(case["src"])
+        rel_bad = None
+        i2_bad = False
         for j, ev in enumerate(hist):
             _Clock.offset_us += 1000
             if j == i:
                 n_before = len(aged.state.flow_states)
                 _Clock.offset_us += AGE_US * 2
-            aged.feed(ev)
-            if j == i:
-                pass
+            if j >= i and not i2_bad:
+                # hypothesis I2 of the T3 lemmas (`Bisim.ActParentsKept`) on the real state: will the clean-up of this step discard
+                # the parent instance of a still activated flow?  (region of the open finding cleanup-dangling-parent)
+                fsd, now = aged.state.flow_states, _Clock.now()
+                for f0 in fsd.values():
+                    par = fsd.get(f0.parent_uid) if f0.activated > 0 and f0.parent_uid else None
+                    if (par is not None and par.status.name in ("FINISHED", "STOPPED") and par.activated == 0
+                            and (now - par.status_updated) > timedelta(microseconds=AGE_US)):
+                        obs["facts"]["act_parent_discardable"] = True
+                        i2_bad = True
+            out = aged.feed(ev)
+            # the hypothesis of the T3 lemmas (`Bisim.Aged`), checked on the real states after every later event
+            if j >= i and rel_bad is None and not i2_bad and not isinstance(out, str) and not isinstance(live_outs[j], str) and live_summ[j] is not None:
+                obs["aged_rel_checked"] = obs.get("aged_rel_checked", 0) + 1
+                try:
+                    why = _aged_violation(live_summ[j], _aged_summary(aged.state))
+                except Exception as e:  # noqa  -- the summary could not be taken: counted, never silent
+                    why = None
+                    obs["aged_rel_error"] = type(e).__name__ + ": " + str(e)[:80]
+                if why:
+                    rel_bad = {"cut": i, "what": "aged-relation", "step": j, "msg": why}
+            elif i2_bad:
+                obs["aged_rel_skipped_i2"] = obs.get("aged_rel_skipped_i2", 0) + 1
+        if rel_bad:
+            obs["problems"].append(rel_bad)
         a, b = _canon_outputs(live_outs[i:]), _canon_outputs(aged.outs[1 + i:])
         if a != b:
             step = next((k for k in range(len(a)) if a[k] != b[k]), 0)
@@ -1246,6 +1381,14 @@ def oracle(case, obs):
         if len(obs["live"]) != len(obs["saved"]):
             return "conversation with the state travelling as JSON stops early"
         return None
+    if k == "api":
+        if "live_failed" in obs:
+            return f"generate_async raises at turn {obs['live_failed']} of an undisturbed conversation with the state travelling as JSON: {obs['live'][-1][4:]}"
+        d = api.first_divergence(obs)
+        if d:
+            return (f"saved state (API level) does not continue like the live conversation: {d['family']}: {d['what']}: turn {d['turn']} "
+                    f"live {json.dumps(obs['live'][d['turn']])[:220]} got {json.dumps(d['got'])[:220]}")
+        return None
     if obs["problems"]:
         p = _worst(obs["problems"])
         if p["what"] == "encode":
@@ -1260,10 +1403,13 @@ def oracle(case, obs):
             return f"clock pushed past the clean-up age at cut {p['cut']}: diverges at event {p['step']}: live {json.dumps(p['live'])[:200]} aged {json.dumps(p['copy'])[:200]}"
         if p["what"] == "structure":
             return f"restored state at cut {p['cut']} is not isomorphic to the saved one: {p['msg']}"
+        if p["what"] == "aged-relation":
+            return (f"clock pushed past the clean-up age at cut {p['cut']}: after event {p['step']} the aged state is not related to the live one as "
+                    f"the T3 lemmas assume (Bisim.Aged): {p['msg']}")
     return None
 
 
-_ORDER = ["callbacks", "decode", "ageing-diverges", "restore-diverges", "structure", "encode"]
+_ORDER = ["callbacks", "decode", "ageing-diverges", "aged-relation", "restore-diverges", "structure", "encode"]
 
 
 def _worst(problems):
@@ -1366,7 +1512,7 @@ def signature(case, obs, msg):
         if any(_removable(f, case["now"]) and f["uid"] in needed for f in case["flows"]):
             return "cleanup-dangling-parent"
         return None
-    if k == "rails":
+    if k in ("rails", "api"):
         return None
     probs = obs.get("problems") or []
     if not probs:
@@ -1406,6 +1552,10 @@ def nontrivial(case, obs):
         return "flows" in obs and 0 < len(obs["flows"]) < len(case["flows"])
     if k == "rails":
         return "live" in obs and sum(1 for o in obs["live"] if o and not isinstance(o, str)) >= 2
+    if k == "api":
+        # at least two turns answered, at least one local action ran, and at least three attempts really failed part-way
+        return ("skip" not in obs and "live_failed" not in obs and sum(1 for o in obs["live"] if o and o[0].get("content")) >= 2
+                and sum(obs["actions"]) >= 1 and obs["n_failed"] >= 3)
     return "skip" not in obs and obs.get("nonempty", 0) >= 2 and obs.get("max_flows", 0) >= 3
 
 
@@ -1437,6 +1587,22 @@ def tags(case, obs):
         t.append("rails-turns:" + str(len(case["turns"])))
         if "skip" in obs:
             t.append("skip:" + obs["skip"][:40])
+    elif k == "api":
+        if "skip" in obs:
+            t.append("skip:" + obs["skip"][:40])
+        elif "live_failed" in obs:
+            t.append("api-live-failed")
+        else:
+            t.append("api-turns:" + str(len(case["turns"])))
+            t.append("api-calls:" + str(obs["n_calls"] // 50 * 50))
+            t.append("api-actions:" + str(min(sum(obs["actions"]), 4)))
+            t.append("api-await-points:" + str(sum(obs["awaits"]) // 20 * 20))
+            for fk, c in obs["fail_kinds"].items():
+                t.append("api-fail:" + fk)
+            for f in sorted(set(s0["family"] for s0 in obs["steps"])):
+                t.append("api-family:" + f)
+            for f in case.get("features", []):
+                t.append("api-feat:" + f)
     else:
         if "skip" in obs:
             t.append("skip:" + obs["skip"].split(":")[1])
@@ -1444,6 +1610,12 @@ def tags(case, obs):
             t.append("cuts:" + str(min(obs["cuts"], 25) // 5 * 5))
             t.append("flows:" + str(min(obs["max_flows"], 12) // 3 * 3))
             t.append("aged-removed:" + str(min(obs["removed_by_ageing"], 5)))
+            if obs.get("aged_rel_checked"):
+                t.append("aged-relation-checked")
+            if obs.get("aged_rel_error"):
+                t.append("aged-relation-summary-error")
+            if obs.get("aged_rel_skipped_i2"):
+                t.append("aged-relation-skipped:parent-of-activated-discardable")
             for f in case.get("features", []):
                 t.append("feat:" + f)
             for p in obs["problems"][:1]:
@@ -1464,6 +1636,8 @@ def shrink(case):
         for i, l in enumerate(lines):
             if i > start and re.match(r"  (\$|send |start |activate )", l):
                 yield dict(case, src="\n".join(lines[:i] + lines[i + 1:]))
+    elif case["kind"] == "api":
+        yield from api.shrink_api(case)
     elif case["kind"] == "cleanup":
         fl = case["flows"]
         for i in range(len(fl)):
